@@ -15,7 +15,8 @@ LEVEL = "exploration"
 RULE = ("corpus-derived structures (incl. 3SGB's insertion-coded residues, generated insertion codes, blank/digit/"
         "lower-case chain ids, ligands, ions) x relabellings: injective chain renaming; per-chain constant shifts (to "
         "negative, to a start at exactly 0, by multiples of 1000, beyond 999); strictly increasing renumbering; "
-        "sequential renumbering that resolves insertion codes; introduction of insertion codes. Non-trivial: the "
+        "sequential renumbering that resolves insertion codes; introduction of insertion codes; exactly symmetric dimers "
+        "(two-fold axis / mirror plane through the origin, one ionizable group touching its image). Non-trivial: the "
         "relabelling changed the text and >= 2 reported groups have determinants; distinct by hash of (input, "
         "relabelled input).")
 ASSUMPTIONS = [
@@ -261,6 +262,80 @@ def run_shard(ctx):
 
     ctx.hypothesis_stage("bridged-chains", bridged(), bridged_body, 300 if quick else 4000)
 
+    # exactly symmetric dimers: a structure and its image under a two-fold axis or a mirror plane through the origin
+    # (coordinates negated exactly, so equivalent groups of the two copies get bit-identical comparison values), placed
+    # so that one ionizable group touches its own image; the relabelling then reverses / keeps the label order
+    SITE = {("ASP", "OD1"), ("ASP", "OD2"), ("GLU", "OE1"), ("GLU", "OE2"), ("HIS", "NE2"), ("HIS", "ND1"),
+            ("LYS", "NZ"), ("TYR", "OH"), ("CYS", "SG"), ("ARG", "NH1"), ("ARG", "NH2")}
+
+    class _S:
+        pass
+
+    @st.composite
+    def dimers(draw):
+        s = draw(gen.structures(max_res=14 if quick else 30, allow_hetero=False, multi_chain=False, allow_icode=False,
+                                allow_truncation=False, always_ter=True))
+        atoms = [a.copy() for a in pdbio.atoms_of(s.entries)]
+        ax = draw(st.integers(0, 2))
+        sgn = draw(st.sampled_from([1, -1]))
+        cands = [a for a in atoms if (a.resn, a.aname) in SITE]
+        if not cands or len({a.chain for a in atoms}) != 1:
+            return None
+        site = max(cands, key=lambda a: sgn * a.xyz[ax])
+        half = draw(st.integers(1250, 2000))              # the site and its image end up 2.5-4.0 A apart
+        other = draw(st.sampled_from([i for i in range(3) if i != ax]))
+        mirror = draw(st.booleans())
+        # translate so that the site sits at +-half on the chosen axis and at 0 on the second negated axis
+        t = [0, 0, 0]
+        t[ax] = -site.xyz[ax] - sgn * half
+        t[other] = -site.xyz[other]
+        for a in atoms:
+            a.x, a.y, a.z = a.x + t[0], a.y + t[1], a.z + t[2]
+        image = []
+        for a in atoms:
+            b = a.copy()
+            c = [b.x, b.y, b.z]
+            c[ax] = -c[ax]
+            if not mirror:
+                c[other] = -c[other]
+            b.x, b.y, b.z = c
+            b.chain = "B" if a.chain != "B" else "C"
+            image.append(b)
+        lim = max(abs(v) for a in atoms for v in a.xyz)
+        if lim > 900000:
+            return None
+        ents = atoms + [gen.ter_line(atoms[-1])] + image + [gen.ter_line(image[-1])]
+        pdbio.renumber_serials(ents)
+        o = _S()
+        o.entries = ents
+        rel, kinds, ok = draw(relabel(o))
+        if draw(st.booleans()):
+            # swap the two chain names outright (the later chain then carries the label that sorts first)
+            names = []
+            for a in pdbio.atoms_of(rel):
+                if a.chain not in names:
+                    names.append(a.chain)
+            if len(names) == 2:
+                sw = {names[0]: names[1], names[1]: names[0]}
+                for a in pdbio.atoms_of(rel):
+                    a.chain = sw[a.chain]
+                kinds = kinds + ["swap-chain-names"]
+        return s, pdbio.write(ents), pdbio.write(rel), kinds, ok, "mirror" if mirror else "two-fold", site
+
+    def dimer_body(t):
+        if t is None or not t[4]:
+            ctx.labels["skipped:no-site-or-duplicate-id"] += 1
+            return
+        s, base, rel, kinds, ok, sym, site = t
+        case = {"pdb": base, "relabelled": rel, "kinds": ["relabel:" + k for k in kinds], "optargs": []}
+        v, info = check_case(case)
+        info["labels"] = info.get("labels", []) + ["symmetric-dimer:" + sym, "site:" + site.resn]
+        info["sample"] = {"structure": s.summary(), "symmetry": sym, "site": "%s %d %s" % (site.resn, site.resnum, site.aname),
+                          "relabelling": kinds}
+        ctx.account(case, v, info)
+
+    ctx.hypothesis_stage("symmetric-dimers", dimers(), dimer_body, 500 if quick else 8000)
+
     # the repository's own insertion-coded structure under twin-preserving relabellings, and the F5 witness
     if ctx.shard == 0:
         text = gen.corpus_text("3SGB")
@@ -273,6 +348,12 @@ def run_shard(ctx):
 
         def one(c):
             v, info = check_case(c)
-            info["sample"] = {"structure": "corpus 3SGB (insertion codes)", "relabelling": c["kinds"]}
+            info["sample"] = {"structure": "corpus 3SGB (insertion codes)" if "3SGB" in c["kinds"][0] else
+                              "witness of fixed finding F20 (exactly symmetric dimer)", "relabelling": c["kinds"]}
             ctx.account(c, v, info)
-        ctx.loop_stage("3SGB-twin-preserving", [case], one)
+        import json as _json
+        import os as _os
+        w = _json.load(open(_os.path.join(_os.path.dirname(_os.path.dirname(_os.path.abspath(__file__))), "witnesses",
+                                          "F20_symmetric_dimer_chain_order.json")))["case"]
+        w["kinds"] = ["relabel:F20-witness"]
+        ctx.loop_stage("3SGB-twin-preserving", [case, w], one)
